@@ -1160,6 +1160,39 @@ def _apply(kind, main, rng, tpl):
         return None
 
 
+def _module_names(tpl_src):
+    import builtins
+
+    names = set(dir(builtins))
+    for node in ast.parse(tpl_src).body:
+        if isinstance(node, (ast.Import, ast.ImportFrom)):
+            for al in node.names:
+                names.add((al.asname or al.name).split(".")[0])
+        elif isinstance(node, (ast.FunctionDef, ast.ClassDef)):
+            names.add(node.name)
+        else:
+            for n in ast.walk(node):
+                if isinstance(n, ast.Name) and isinstance(n.ctx, ast.Store):
+                    names.add(n.id)
+    return names
+
+
+def _stringify_unbound_annotations(main, tpl_src):
+    """CPython evaluates main's parameter / return annotations at `def` time, before guppy sees
+    anything; an annotation mentioning a name the module does not define would only give a NameError
+    (a discarded mutant).  Turn such annotations into string annotations, which guppy parses itself."""
+    known = _module_names(tpl_src) | {p.name for p in getattr(main, "type_params", [])}
+    holders = [(a, "annotation") for a in main.args.posonlyargs + main.args.args + main.args.kwonlyargs]
+    holders.append((main, "returns"))
+    for obj, field in holders:
+        ann = getattr(obj, field)
+        if ann is None or isinstance(ann, ast.Constant):
+            continue
+        free = [n.id for n in ast.walk(ann) if isinstance(n, ast.Name) and n.id not in known]
+        if free:
+            setattr(obj, field, ast.Constant(value=ast.unparse(ann)))
+
+
 def mutate_once(tpl, rng, kind=None):
     """One mutant dict or None.  `kind` None draws a kind uniformly."""
     prefix, main, suffix = split_main(tpl["src"])
@@ -1184,6 +1217,7 @@ def mutate_once(tpl, rng, kind=None):
         desc = _apply(kind, main, rng, tpl)
         if desc is None:
             return None
+    _stringify_unbound_annotations(main, tpl["src"])
     try:
         src = join_main(prefix, main, suffix)
         with warnings.catch_warnings():
